@@ -16,14 +16,25 @@ Inductive scan_err :=
 Definition in_goroutine_suffix : bytes := s2b " in goroutine".
 
 (* unicode.ToUpper(r) == r for the first rune of [part]:
-   empty or invalid UTF-8 decode to RuneError, a fixed point; ASCII exact.
-   Non-ASCII runes need the Unicode case tables, which are NOT modelled: the
-   result is reported as exported and the correspondence check masks
-   IsExported for those symbols. *)
+   empty or invalid UTF-8 decode to RuneError, a fixed point; ASCII and the
+   Latin-1 supplement (U+0080..U+00FF: two-byte sequences C2 xx / C3 xx) are
+   exact: the lower-case letters are U+00B5 and U+00DF..U+00FF minus U+00F7,
+   of which U+00DF has no upper-case mapping.  Runes from U+0100 on need the
+   Unicode case tables, which are NOT modelled: the result is reported as
+   exported and the correspondence check masks IsExported for those symbols. *)
 Definition first_rune_upper_fixed (part : bytes) : bool :=
   match part with
   | [] => true
-  | c :: _ => if N.ltb c 128 then negb (N.leb 97 c && N.leb c 122) else true
+  | c :: t =>
+      if N.ltb c 128 then negb (N.leb 97 c && N.leb c 122) else
+      match t with
+      | c1 :: _ =>
+          if N.eqb c 194 then negb (N.eqb c1 181)                       (* U+00B5 micro sign *)
+          else if N.eqb c 195 then
+            negb (N.leb 160 c1 && N.leb c1 191 && negb (N.eqb c1 183))  (* U+00E0..U+00FF except U+00F7 *)
+          else true
+      | [] => true
+      end
   end.
 
 Definition func_init (raw : bytes) : GoResult (option Func) :=
